@@ -398,7 +398,7 @@ class Ctx:
         if a.dtype not in (np.dtype(np.int64), np.dtype(np.int32)):
             self.axes['axis2_vii_param_dtype_' + a.dtype.name] = 1
         if k == 'intview' and a.ndim == 1:
-            big = np.full(2 * a.size + 1, -7, dtype=a.dtype)
+            big = np.full(2 * a.size + 1, 7, dtype=a.dtype)
             big[1::2] = a
             return self.own(big[1::2], name + '_iview')
         return self.own(a, name + '_int')
